@@ -567,7 +567,7 @@ class Process(StateMachine, persistence.Savable, metaclass=ProcessStateMachineMe
         exception: Optional[BaseException],
         trace: Optional[TracebackType],
     ) -> None:
-        if self.state != process_states.ProcessState.EXCEPTED:
+        if not self.has_terminated():
             self.fail(exception, trace)
 
     @contextlib.contextmanager
@@ -1213,7 +1213,10 @@ class Process(StateMachine, persistence.Savable, metaclass=ProcessStateMachineMe
         """Start running the process again."""
         return self._state.resume(*args)  # type: ignore
 
-    @event(to_states=process_states.Excepted)
+    @event(
+        from_states=(process_states.Created, process_states.Running, process_states.Waiting),
+        to_states=process_states.Excepted,
+    )
     def fail(self, exception: Optional[BaseException], trace_back: Optional[TracebackType]) -> None:
         """
         Fail the process in response to an exception
